@@ -308,6 +308,7 @@ func run(t failer, c Case) Result {
 // Library wrappers (panic safe)
 
 type libOut struct {
+	Mutated  string // non-empty: the returned value changed after later searches (description)
 	Val      interface{}
 	Err      error
 	Panic    interface{}
@@ -364,6 +365,19 @@ func libCompileSearchTwice(expr string, doc interface{}) (first, again libOut) {
 		}
 		first.Compiled = true
 		first.Val, first.Err = c.Search(ref.DeepCopy(doc))
+		// a value handed back by Search must not change when the expression is used again
+		// (results aliasing pooled or scratch memory of the compiled expression)
+		shownBefore := ""
+		if first.Err == nil {
+			shownBefore = show(first.Val)
+		}
+		defer func() {
+			if first.Err == nil && first.Panic == nil && again.Panic == nil {
+				if after := show(first.Val); after != shownBefore {
+					first.Mutated = "was " + shownBefore + ", became " + after
+				}
+			}
+		}()
 		for _, d := range interveningDocs {
 			if p := safely(func() { _, _ = c.Search(ref.DeepCopy(d)) }); p != nil {
 				again.Panic = p
